@@ -333,7 +333,7 @@ def run(ctx):
         ctx.broke("build", "cargo", msg)
         return
     fam = [s for s in F.family(True) if s["cmd"] != "undo"]
-    scs = fam if ctx.thorough else fam[:5]
+    scs = fam if ctx.thorough else fam[:6]
     errnos = ERRNOS_THOROUGH if ctx.thorough else ERRNOS_QUICK
     with Pool(16) as pool:
         run_corpus(ctx, pool, {s["name"]: s for s in fam})
